@@ -697,6 +697,65 @@ fn main() {
         levels.push(format!("cross-component @{:.1}s", run.elapsed().as_secs_f64()));
     }
 
+    // ---- consumers inside DhtNetworkManager, through the in-memory network: the address string a DHT reply carries
+    // for a peer (rendered by register_new_peer / handle_peer_connected on the replying node) must make the
+    // requester dial exactly that peer's socket address (multiaddr_from_address, dial_candidate, connect_peer),
+    // and get_peer_id_by_address must resolve the plain rendering to the peer.
+    {
+        use vh::netsim::*;
+        let far: Vec<&str> = vec!["198.51.100.7:9000", "198.51.100.8:65535", "198.51.100.9:1", "10.0.0.1:80", "[2001:db8:5::1]:9000", "[2001:db8:5::2]:65535", "[fd12:3456:789a:1::1]:9000", "[2001:db8:85a3::8a2e:370:7334]:443"];
+        let dial_cases = std::sync::atomic::AtomicU64::new(0);
+        par_for(far.len(), |fi| {
+            let x: std::net::SocketAddr = far[fi].parse().unwrap();
+            let rt = paused_runtime();
+            rt.block_on(async {
+                saorsa_core::verif_hooks::clear_sockets();
+                let world = World::new();
+                // A (prefix 15) - B (prefix 8) - C (prefix 1, at address x); target key prefix 0 is closest to C
+                let a = make_node(&world, 0, &NodeSpec { tid: tid_with_prefix(15, 4, 0), app_id: Some(app_id_with_prefix(15, 4, 100)), k: 8 }).await;
+                let b = make_node(&world, 1, &NodeSpec { tid: tid_with_prefix(8, 4, 1), app_id: Some(app_id_with_prefix(8, 4, 101)), k: 8 }).await;
+                let c = make_node_at(&world, x, &NodeSpec { tid: tid_with_prefix(1, 4, 2), app_id: Some(app_id_with_prefix(1, 4, 102)), k: 8 }).await;
+                let _ = a.transport.connect_peer(&b.addr.to_string()).await;
+                settle().await;
+                let _ = c.transport.connect_peer(&b.addr.to_string()).await; // C dials B: B learns C's address from the connection
+                settle().await;
+                let key = key_with_prefix(0, 4, 7);
+                let m = a.mgr.clone();
+                let h = tokio::spawn(async move { m.find_closest_nodes(&key, 8).await });
+                let mut ch = Chooser::new(&[]);
+                let hh = &h;
+                let _ = drive(&world, &mut ch, &|| hh.is_finished(), Duration::from_secs(600), &|| vec![], &mut |_| {}, &mut |_| {}).await;
+                let res = h.await.ok().and_then(|r| r.ok()).unwrap_or_default();
+                distinct.eval();
+                dial_cases.fetch_add(1, Ordering::Relaxed);
+                // what B told A about C, and where A dialled
+                let told: Vec<String> = world.with(|w| w.delivered.iter().filter(|f| f.dst == a.tid_hex).filter_map(|f| f.info.dht.as_ref()).filter_map(|m| match &m.result { Some(saorsa_core::dht_network_manager::DhtNetworkResult::NodesFound { nodes, .. }) => Some(nodes.clone()), _ => None }).flatten().filter(|n| n.peer_id == c.tid_hex || n.peer_id == hex::encode(c.pos)).map(|n| n.address).collect());
+                let dials: Vec<(std::net::SocketAddr, bool)> = world.trace().iter().filter_map(|e| match e { Ev::Dial { from, to_addr, ok } if *from == a.tid_hex => Some((*to_addr, *ok)), _ => None }).collect();
+                let known_addrs = [a.addr, b.addr, x];
+                let reached = a.transport.is_peer_connected(&c.tid_hex).await;
+                let resolved = a.transport.get_peer_id_by_address(&x.to_string()).await;
+                let fam = if x.is_ipv4() { "ipv4" } else { "ipv6" };
+                let port = if x.port() == 65535 { "65535" } else { "other" };
+                distinct.outcome(&("dial", fam, port, reached, told.len()));
+                let wit = || json!({"far_peer_address": far[fi], "address_strings_in_the_reply": told, "dialled": dials.iter().map(|(s, ok)| json!([s.to_string(), ok])).collect::<Vec<_>>(), "connected_to_far_peer": reached, "get_peer_id_by_address": resolved, "lookup_result": res.iter().map(|n| n.peer_id.chars().take(8).collect::<String>()).collect::<Vec<_>>()});
+                if let Some((bad, _)) = dials.iter().find(|(s, _)| !known_addrs.contains(s)) {
+                    run.violation_lazy("C19.dial", feats(&[("consumer", "dial_candidate".into()), ("shape", "different-address".into()), ("family", fam.into()), ("port", port.into())]), || (wit(), format!("the requester dialled {bad}, which is no node's address (the far peer is at {x})")));
+                }
+                if told.is_empty() {
+                    run.info("dial family: reply did not carry the far peer (info)");
+                } else if !dials.iter().any(|(s, _)| *s == x) {
+                    run.violation_lazy("C19.dial", feats(&[("consumer", "dial_candidate".into()), ("shape", "address-from-reply-not-dialled".into()), ("family", fam.into()), ("port", port.into())]), || (wit(), format!("the reply named the far peer as {told:?} but the requester never dialled {x}")));
+                } else if !reached {
+                    run.violation_lazy("C19.dial", feats(&[("consumer", "connect_peer".into()), ("shape", "not-connected-after-dial".into()), ("family", fam.into()), ("port", port.into())]), || (wit(), format!("dialling {x} did not connect to the far peer")));
+                } else if resolved.as_deref() != Some(c.tid_hex.as_str()) {
+                    run.violation_lazy("C19.dial", feats(&[("consumer", "get_peer_id_by_address".into()), ("shape", "address-not-resolved-to-peer".into()), ("family", fam.into()), ("port", port.into())]), || (wit(), format!("get_peer_id_by_address({x}) = {resolved:?}")));
+                }
+            });
+        });
+        bounds.insert("netsim_dial_family".into(), json!({"far_peer_addresses": far, "cases": dial_cases.into_inner()}));
+        levels.push(format!("netsim dial consumers @{:.1}s", run.elapsed().as_secs_f64()));
+    }
+
     if budget.was_hit() {
         run.cap_hit(format!("wall-clock budget; completed: {levels:?}"));
         if levels.len() < 2 {
@@ -723,7 +782,7 @@ fn main() {
             "word variants never produced by the library (upper, title, mixed separators) may be rejected (counted as info); they must not decode to another address or panic. The hyphen form (NetworkAddress::four_words, identity::FourWordAddress) and the space form (re-exported encoder) must decode".into(),
             "a mutated string that is accepted must be a rendering of the returned address (std SocketAddr syntax, /ip4|ip6/<ip>/tcp/<port>[/...], '<ip:port> (...)', or the library's words of that address up to separators/case); a mutated string that std parses must be accepted; any other Err is fine".into(),
             "add_node's gate is observed differentially: the admission sequence for library-rendered strings must equal the one for plain ip:port strings of the same addresses (fresh engine each, LogOnly close-group validation, ids in distinct buckets); only renderings that reach add_node in production (NetworkAddress::to_string via register_new_peer/handle_peer_connected; bare IP per the code comment) are judged".into(),
-            "not covered in this binary: DhtNetworkManager::{multiaddr_from_address, dial_candidate} (private), get_peer_id_by_address, BootstrapManager dialling — they need the netsim engine".into(),
+            "DhtNetworkManager::{multiaddr_from_address, dial_candidate}, connect_peer and get_peer_id_by_address are exercised through the in-memory network (A-B-C path, the far peer at 8 address classes); BootstrapManager dialling is not covered".into(),
             "DESIGN's quick grid (full battery on all 7.6e5 grid addresses) was scaled to measured throughput: words + Display round trips on the whole grid, the full battery on the sub-grid stated in bounds".into(),
         ],
     );
